@@ -124,6 +124,14 @@ class VECTOR_BLF_EXPORT UncompressedFile final : public AbstractFile {
     /** put position */
     std::streampos m_tellp {};
 
+    /**
+     * position up to which a blocked read needs data (0 if no read is waiting)
+     *
+     * A write is not held back by the buffer size before this position;
+     * otherwise a read larger than the buffer could never be satisfied.
+     */
+    std::streampos m_demand {};
+
     /** last read size */
     std::streamsize m_gcount {};
 
